@@ -25,11 +25,15 @@ every clock value the code computes is an exact multiple of the unit).  Every no
 choice is an action:
 
 * `arrive x`  — the producer's `put(x)` takes effect (item or end marker; also after the marker);
-* `tick d`    — `d > 0` time units pass.  Enabled only while the batcher cannot move: blocked in (A)
-                on an empty queue, blocked in (B) on an empty queue and then at most up to the
-                deadline, suspended at a `yield` (the consumer holds the batch), or finished.  This is
-                the zero-processing-time / maximal-progress reading of "arrival timing": the code's own
-                steps take no time, waiting takes exactly as long as needed;
+* `tick d`    — `d > 0` time units pass.  With `c.strict = true` it is enabled only while the batcher
+                cannot move: blocked in (A) on an empty queue, blocked in (B) on an empty queue and
+                then at most up to the deadline, suspended at a `yield` (the consumer holds the
+                batch), or finished.  This is the zero-processing-time / maximal-progress reading of
+                "arrival timing": the code's own steps take no time, waiting takes exactly as long as
+                needed; the "no delay" theorems are about this reading.  With `c.strict = false` time
+                may pass at any moment (the OS may delay the batcher thread arbitrarily between any two
+                of its steps; its clock reads may be late): partition and "a short batch only after
+                the wait has expired on an empty queue" hold there too;
 * `take`      — a `get` of the batcher returns the head of the queue (in (A) or (B));
 * `timeout`   — the `get` in (B) raises `queue.Empty`: queue empty and clock ≥ deadline;
 * `emit`      — `yield batch` hands the batch to the consumer;
@@ -55,6 +59,7 @@ structure Cfg where
   bs : Nat          -- batch_size
   wait : Nat        -- batch_wait_time in clock units
   endm : Item       -- end marker (`none` = the default `None`)
+  strict : Bool     -- zero processing time: time passes only while the batcher is blocked
 
 /-- `z is None` (default marker) resp. `z == end` (custom marker) -/
 def Cfg.isEnd (c : Cfg) (x : Item) : Bool := x == c.endm
@@ -90,8 +95,8 @@ def init : State :=
 def step (c : Cfg) (s : State) : Act → Option State
   | .arrive x => some { s with q := s.q ++ [x], arrived := s.arrived ++ [(x, s.clock)] }
   | .tick d =>
-    if 0 < d ∧ ((s.pc = .idle ∧ s.q = []) ∨ (s.pc = .coll ∧ s.q = [] ∧ s.clock + d ≤ s.t0 + c.wait)
-                ∨ s.pc = .held ∨ s.pc = .done) then
+    if 0 < d ∧ (c.strict = false ∨ (s.pc = .idle ∧ s.q = []) ∨
+                (s.pc = .coll ∧ s.q = [] ∧ s.clock + d ≤ s.t0 + c.wait) ∨ s.pc = .held ∨ s.pc = .done) then
       some { s with clock := s.clock + d }
     else none
   | .take =>
